@@ -1035,7 +1035,9 @@ class CSA:
             if meth == 'unwrap_or_else':
                 return self.apply_closure(a[0], [] if r[0] == 'opt' else [r[2]], s, en)
             return V(('unk', 'default'))
-        if meth in ('try_for_each', 'for_each') and a and a[0][0] == 'closure' and len(a[0]) == 3 and r[0] in ('ast', 'selffield'):
+        if meth in ('into_iter', 'iter', 'drain') and r[0] == 'breaklist_val':
+            return V(r)
+        if meth in ('try_for_each', 'for_each') and a and a[0][0] == 'closure' and len(a[0]) == 3 and r[0] in ('ast', 'selffield', 'breaklist_val'):
             clo = a[0][1]
             params = clo.get('inputs') or clo.get('params') or []
             pat = params[0].get('pat', params[0]) if params else {'k': 'p_wild'}
